@@ -306,6 +306,13 @@ func checkC20(c c20Case) verdict {
 		if call.Dist != 0 || call.Dig != "6" || call.Mut != 0 || call.Frac > 0 {
 			nt = true
 		}
+		// a digits / algorithm spelling outside the canonical seven: the binding may resolve it like the library's helpers
+		// (what the tree does) or refuse it with an 'error:' string; another successful reading is not the native library's
+		if s, isStr := got.Value.(string); got.Type == "string" && isStr && strings.HasPrefix(s, "error:") &&
+			(!canonicalSpelling(call.Dig, "6", "8", "9", "10") || !canonicalSpelling(call.Alg, "SHA1", "SHA256", "SHA512")) {
+			labels = append(labels, "noncanonical-spelling-refused")
+			continue
+		}
 		par := &otp.Param{Digits: otp.Digits(d), Algorithm: otp.Algorithm(a), Period: uint(call.Period), Skew: uint(call.Skew)}
 		switch call.Fn {
 		case "generateHOTP", "generateTOTP":
